@@ -38,7 +38,8 @@ EXPLANATION = (
     "is permitted only for disabled, or no entries and default allow. (I3) in the constructor "
     "no exception handler leads to the next entry without an append, and start_server builds "
     "AccessControl before create_server outside any try. (I4/I5) wiring and key fidelity by "
-    "def-use. ipaddress arithmetic is trusted."
+    "def-use. ipaddress arithmetic is trusted. "
+    "(I6) = C04.M3: the chain sees the transport's own peer address, unaltered."
 )
 
 MW = "server.middleware"
